@@ -220,7 +220,59 @@ def rule_flow_keys(ctx):
     C07.rule_R2_R3(R.Retag(ctx, "C07."))
 
 
+def rule_completeness(ctx):
+    """R3: a message is parsed only when its head is complete: `not yet` (Ok(None)) is decided by the absence of a blank line
+    (CRLF CRLF / LF LF) in the bytes reassembled so far - not by where a segment happens to end; the completeness pre-check and the
+    parser both look at the reassembled stream of that direction"""
+    P = ctx.program
+    for fn in ("parse_request", "parse_response"):
+        b = P.method1("Http1Parser", fn)
+        S = T.Slicer(b, P)
+        found = False
+        for (rb, j, term, _c) in TB.return_sites(b, P):
+            tt = T.strip(term)
+            if not (tt[0] == "agg" and tt[3] == "Ok" and tt[4] and T.strip(tt[4][0])[0] == "agg" and T.strip(tt[4][0])[3] == "None"):
+                continue
+            conds = Q.canon_conds(P, T.dom_conds(b, S, rb))
+            pats = {}
+            for c in conds:
+                if c[0] == "bool" and c[1][0] == "call" and c[1][1].endswith("::contains"):
+                    lits = [x[1] for x in T.walk(c[1]) if x[0] == "const" and isinstance(x[1], str)]
+                    for l in lits:
+                        pats[l] = c[2]
+            if pats:
+                found = True
+                ok = pats.get("\r\n\r\n") is False and pats.get("\n\n") is False and len(pats) == 2
+                ctx.check(ok, "R3", fn + ":incomplete-iff-no-blank-line", "Ok(None) exactly when neither CRLFCRLF nor LFLF is present",
+                          "`incomplete` is decided by %s" % pats, ctx.loc(b, rb))
+        if not found:
+            ctx.fail("R3", fn + ":incomplete-iff-no-blank-line",
+                     "%s no longer decides `head incomplete` by searching the reassembled bytes for a blank line (CRLF CRLF / LF LF): a head cut right after a line end can be "
+                     "taken for complete and reported with the headers seen so far" % fn, ctx.loc(b))
+    pb = P.body(HP + "process_tcp_packet")
+    SP = T.Slicer(pb, P)
+    n = 0
+    for blk, t in pb.calls():
+        nm = callee_of(t).rsplit("::", 1)[-1]
+        if nm in ("has_complete_http_data", "parse_http_request", "parse_http_response"):
+            a = Q.call_args(pb, SP, blk, t)
+            n += 1
+            ctx.check(T.has_call(a[0], "get_full_data"), "R3", "process_tcp_packet:%s:input@%d" % (nm, n), "%s looks at the reassembled bytes of the direction" % nm,
+                      "%s is given %s, not the reassembled stream: whether a message is reported depends on how it was cut into segments" % (nm, T.pp(T.strip(a[0]))[:60]),
+                      ctx.loc(pb, blk))
+    ctx.floor("R3", "completeness / parse calls in process_tcp_packet", n, 4)
+
+
+def rule_segments(ctx):
+    """R4/R5: stored bytes are the TCP payload bounded by the IP length; reported endpoints pair address and port of one side"""
+    from . import _endpoints as E
+    E.tcp_from_payload(ctx, ctx.program, "R5", ("huginn_net_http",))
+    E.ipport_pairing(ctx, ctx.program, "R4", ("huginn_net_http",))
+
+
 def run(ctx):
+    rule_completeness(ctx)
+    rule_segments(ctx)
     rule_flow_keys(ctx)
     rule_full_data(ctx)
     rule_process(ctx)
